@@ -49,17 +49,29 @@ func runC19(c *core.Ctx) {
 	}
 	// W: fields written in createMiniBlockHeaders
 	written := map[*types.Var]bool{}
+	writers := []*ssa.Function{mk}
 	core.Instrs(mk, func(in ssa.Instruction) {
-		st, ok := in.(*ssa.Store)
-		if !ok {
-			return
-		}
-		if fa, ok := st.Addr.(*ssa.FieldAddr); ok {
-			if f := core.FieldOfAddr(fa); f != nil && isMBHField(f) {
-				written[f] = true
-			}
+		// the entry may be built by a function of the package that createMiniBlockHeaders calls
+		if cc := core.CallOf(in); cc != nil && cc.StaticCallee() != nil && cc.StaticCallee().Blocks != nil && cc.StaticCallee().Pkg == mk.Pkg && cc.StaticCallee() != mk {
+			writers = append(writers, cc.StaticCallee())
 		}
 	})
+	for _, w := range writers {
+		core.Instrs(w, func(in ssa.Instruction) {
+			st, ok := in.(*ssa.Store)
+			if !ok {
+				return
+			}
+			if fa, ok := st.Addr.(*ssa.FieldAddr); ok {
+				if f := core.FieldOfAddr(fa); f != nil && isMBHField(f) {
+					written[f] = true
+					if w != mk {
+						c.Analysed(fname(w))
+					}
+				}
+			}
+		})
+	}
 	// R: fields whose value feeds a test with an error-only branch in checkHeaderBodyCorrelation. A test may
 	// be delegated to a boolean helper of the package (`if !matches(hdr, mb) { return err }`): the helper's
 	// tests whose branch leads only to the refusing answer count, its parameters standing for the arguments;
@@ -232,6 +244,7 @@ func runC19(c *core.Ctx) {
 	nLoops := 0
 	for _, l := range core.Loops(ck) {
 		var guards []guardMap
+		var takes []*ssa.Call
 		for _, b := range ck.Blocks {
 			if !l.Body[b] {
 				continue
@@ -255,7 +268,68 @@ func runC19(c *core.Ctx) {
 						guards = append(guards, guardMap{lk.X, lk})
 					}
 				}
+				// "take one": a function of the package handed the index, whose answer guards this error exit and
+				// which - judged on its own paths - updates the index it looked up before it answers "found"
+				var call *ssa.Call
+				switch t := v.(type) {
+				case *ssa.Call:
+					call = t
+				case *ssa.Extract:
+					call, _ = t.Tuple.(*ssa.Call)
+				}
+				if call == nil || !l.Body[call.Block()] || call.Call.StaticCallee() == nil || call.Call.StaticCallee().Blocks == nil || call.Call.StaticCallee().Pkg != ck.Pkg {
+					continue
+				}
+				h := call.Call.StaticCallee()
+				for pi, p := range h.Params {
+					if _, isMap := p.Type().Underlying().(*types.Map); !isMap || pi >= len(call.Call.Args) {
+						continue
+					}
+					var lks []*ssa.Lookup
+					core.Instrs(h, func(in ssa.Instruction) {
+						if lk, ok := in.(*ssa.Lookup); ok && lk.X == ssa.Value(p) {
+							lks = append(lks, lk)
+						}
+					})
+					if len(lks) == 0 {
+						continue
+					}
+					updates := func(in ssa.Instruction) bool {
+						if mu, ok := in.(*ssa.MapUpdate); ok {
+							return mu.Map == ssa.Value(p)
+						}
+						if dc, ok := in.(*ssa.Call); ok {
+							if bi, ok := dc.Call.Value.(*ssa.Builtin); ok && bi.Name() == "delete" && len(dc.Call.Args) > 0 {
+								return dc.Call.Args[0] == ssa.Value(p)
+							}
+						}
+						return false
+					}
+					// every return that does not answer a constant "not found" lies behind an update
+					esc, _ := core.PathQ{Fn: h, From: lks[0], Via: updates, Target: func(in ssa.Instruction, _ *ssa.BasicBlock) bool {
+						r, ok := in.(*ssa.Return)
+						if !ok {
+							return false
+						}
+						for i := range r.Results {
+							if b, isC := core.ConstBool(core.RetOperand(r, i)); isC && !b {
+								return false
+							}
+						}
+						return true
+					}}.Escape()
+					if esc == nil {
+						takes = append(takes, call)
+						c.Analysed(fname(h))
+					}
+				}
 			}
+		}
+		if len(guards) == 0 && len(takes) > 0 {
+			nLoops++
+			c.Pass("C19/each-entry-matched-once", "baseProcessor.checkHeaderBodyCorrelation", takes[0].Pos(),
+				"every iteration of the body loop takes its entry out of the index through "+takes[0].Call.StaticCallee().Name()+", which updates the index before it answers found")
+			continue
 		}
 		if len(guards) == 0 {
 			continue
